@@ -47,6 +47,13 @@ LEVEL_TEXT += (
     "coordinates of a join are the operands' coordinates and the "
     "merging key is scale-free; splits valid for any numbering, "
     "higher-order surgery, orientation flags (open findings).")
+LEVEL_TEXT += (
+    " Added in the second hunting round (DESIGN.md 9.6): "
+    "the merge key of Mesh.__add__ is decided by abstract "
+    "interpretation over {position, invariant quantity} "
+    "(skv/invariance.py) instead of a syntactic test; tag arrays built "
+    "from run-time lists carry an integer dtype; the extrusion routines "
+    "must read the cells of the segment mesh (open finding).")
 LEVEL_NOTE = ("Trusted: numpy hstack/unique/intersect1d semantics; "
               "order-preserving vertex compaction keeps the lexicographic "
               "facet order.")
